@@ -138,7 +138,8 @@ class RingBufferPlugin:
 
         def delayed(i, e, undelayed):
             D = round(F(e.delay) / dt) if e.delay is not None else 0
-            if D < 1:
+            if D < 2:
+                # a delay of at most one integration step is neglected (documented behaviour, C09 leaves it out)
                 return undelayed()
             sn, so, sv = e.src.rsplit('/', 2)
             if e.template:
